@@ -1432,6 +1432,343 @@ fn poly_case(ctx: &mut Ctx) {
     });
 }
 
+// ---------------------------------------------------------------------------------------------
+// the COMPLETE output of the public stroker (every vertex with all accessors + every triangle),
+// predicted by the model of the whole StrokeBuilderImpl (`Model/Tess/StrokeFull.lean`)
+
+fn gen_polyline_subs(rng: &mut Rng, width: f32, thr: f32, scale: f32, lattice: bool) -> Vec<(Vec<Point>, bool)> {
+    let n_sub = rng.range(1, 3) as usize;
+    let mut subs: Vec<(Vec<Point>, bool)> = Vec::new();
+    for _ in 0..n_sub {
+        let n = rng.range(1, 9) as usize;
+        let mut rp = |rng: &mut Rng| -> Point {
+            if lattice {
+                point(rng.range(-8, 8) as f32 * scale, rng.range(-8, 8) as f32 * scale)
+            } else {
+                point(rng.uniform(-10.0, 10.0) as f32 * scale, rng.uniform(-10.0, 10.0) as f32 * scale)
+            }
+        };
+        let mut pts = vec![rp(rng)];
+        while pts.len() < n {
+            let cur = *pts.last().unwrap();
+            let k = rng.below(12) as usize;
+            let next = match k {
+                0 => cur,
+                1 => cur + vector(thr.sqrt() * rng.uniform(-1.5, 1.5) as f32, thr.sqrt() * rng.uniform(-1.5, 1.5) as f32),
+                2 => cur + vector(width * rng.uniform(-0.6, 0.6) as f32, width * rng.uniform(-0.6, 0.6) as f32),
+                3 if pts.len() >= 2 => {
+                    // back along the previous edge (exact or nearly a 180° turn)
+                    let prev = pts[pts.len() - 2];
+                    let t = rng.uniform(0.1, 1.5) as f32;
+                    cur + (prev - cur) * t + if rng.chance(1, 2) { vector(0.0, 0.0) } else { vector(rng.uniform(-0.2, 0.2) as f32, rng.uniform(-0.2, 0.2) as f32) * scale }
+                }
+                // collinear continuation
+                4 if pts.len() >= 2 => cur + (cur - pts[pts.len() - 2]),
+                5 => pts[0],
+                // a sharp spike with a short next edge (fold candidates)
+                6 if pts.len() >= 2 => {
+                    let prev = pts[pts.len() - 2];
+                    let d = (prev - cur).normalize();
+                    let d = if d.x.is_finite() { d } else { vector(1.0, 0.0) };
+                    let a = rng.uniform(-0.5, 0.5) as f32;
+                    let r = vector(d.x * a.cos() - d.y * a.sin(), d.x * a.sin() + d.y * a.cos());
+                    cur + r * (width * rng.uniform(0.05, 3.0) as f32)
+                }
+                // tiny / huge segment
+                7 => cur + vector(rng.uniform(-1.0, 1.0) as f32, rng.uniform(-1.0, 1.0) as f32) * (scale * 10f64.powf(rng.uniform(-4.0, 3.0)) as f32),
+                _ => rp(rng),
+            };
+            pts.push(next);
+        }
+        subs.push((pts, rng.chance(1, 2)));
+    }
+    subs
+}
+
+fn full_case(ctx: &mut Ctx) {
+    ctx.case("full:32", |rng| {
+        let scale = match rng.below(8) {
+            0 => 10f64.powf(rng.uniform(-3.0, -1.0)) as f32,
+            1 => 10f64.powf(rng.uniform(1.0, 5.0)) as f32,
+            _ => 1.0,
+        };
+        let width = scale
+            * match rng.below(4) {
+                0 => 10f64.powf(rng.uniform(-1.5, 0.0)),
+                1 => rng.uniform(5.0, 40.0),
+                _ => rng.uniform(0.5, 6.0),
+            } as f32;
+        let tol = scale
+            * match rng.below(4) {
+                0 => 10f64.powf(rng.uniform(-3.0, -1.5)),
+                1 => rng.uniform(0.5, 3.0),
+                _ => rng.uniform(0.02, 0.4),
+            } as f32;
+        let thr = (tol * tol * 0.5).min(width * width * 0.05).max(1e-8f32);
+        let lattice = rng.chance(1, 3);
+        let join = gen_join_kind(rng);
+        let (cap1, cap2) = if rng.chance(1, 2) { let c = gen_cap(rng); (c, c) } else { (gen_cap(rng), gen_cap(rng)) };
+        let ml = match rng.below(4) {
+            0 => 1.0,
+            1 => rng.uniform(1.0, 1.5) as f32,
+            2 => 4.0,
+            _ => rng.uniform(1.0, 12.0) as f32,
+        };
+        let subs = gen_polyline_subs(rng, width, thr, scale, lattice);
+        let mut args = Out::new();
+        args.f(tol).f(width).f(ml).t(join_name(join)).t(cap_name(cap1)).t(cap_name(cap2)).u(subs.len() as u64);
+        for (pts, closed) in &subs {
+            args.u(pts.len() as u64).b(*closed);
+            for p in pts {
+                args.p(*p);
+            }
+        }
+        let total: usize = subs.iter().map(|s| s.0.len()).sum();
+        let tag = format!(
+            "full fw polyline {} {}/{} subs={} closed={} {}{}{}",
+            join_name(join),
+            cap_name(cap1),
+            cap_name(cap2),
+            subs.len(),
+            subs.iter().filter(|s| s.1).count(),
+            if lattice { "lattice" } else { "float" },
+            if scale != 1.0 { " scaled" } else { "" },
+            if total <= 1 { " trivial" } else { "" }
+        );
+        (args, tag, move || {
+            let mut options = StrokeOptions::tolerance(tol).with_line_width(width).with_line_join(join).with_miter_limit(ml);
+            options.start_cap = cap1;
+            options.end_cap = cap2;
+            let mut b = Path::builder();
+            for (pts, closed) in &subs {
+                b.begin(pts[0]);
+                for p in &pts[1..] {
+                    b.line_to(*p);
+                }
+                b.end(*closed);
+            }
+            let path = b.build();
+            let mut rec = hk::Rec::default();
+            let res = StrokeTessellator::new().tessellate(path.iter(), &options, &mut rec);
+            let mut o = Out::new();
+            let mut orc = Oracle::new();
+            orc.check(res.is_ok(), "full/ok", "generic", || format!("{:?}", res));
+            put_full(&mut o, &rec, false);
+            let nv = rec.vertices.len() as u32;
+            for t in &rec.triangles {
+                orc.check(tris_distinct(t), "full/distinct-ids", "generic", || format!("{:?}", t));
+                orc.check(t.0 < nv && t.1 < nv && t.2 < nv, "full/valid-ids", "generic", || format!("{:?} of {}", t, nv));
+            }
+            CaseOut { imp: o, orcl: orc.verdict }
+        })
+    });
+}
+
+/// every vertex (all accessors; the interpolated attributes when `attrs`) and every triangle
+fn put_full(o: &mut Out, r: &hk::Rec, attrs: bool) {
+    o.t("V").u(r.vertices.len() as u64);
+    for v in &r.vertices {
+        put_vtx(o, v);
+        if attrs {
+            o.t("A").u(v.attributes.len() as u64);
+            for a in &v.attributes {
+                o.f(*a);
+            }
+        }
+    }
+    o.t("T").u(r.triangles.len() as u64);
+    for t in &r.triangles {
+        o.u(t.0 as u64).u(t.1 as u64).u(t.2 as u64);
+    }
+}
+
+/// curve-heavy inputs: sharp quadratic turns (find_sharp_turn), cusps, curves that are short or
+/// long relative to the line width (fast path of flattened curves, skipped joins), strongly varying
+/// width factors
+fn gen_curvy_input(rng: &mut Rng, width: f32) -> StrokeInput {
+    let scale = width * 10f64.powf(rng.uniform(-0.7, 1.8)) as f32;
+    let lattice = rng.chance(1, 4);
+    let mut rp = |rng: &mut Rng| -> Point {
+        if lattice {
+            point(rng.range(-6, 6) as f32 * scale * 0.125, rng.range(-6, 6) as f32 * scale * 0.125)
+        } else {
+            point(rng.uniform(-1.0, 1.0) as f32 * scale, rng.uniform(-1.0, 1.0) as f32 * scale)
+        }
+    };
+    let mut subs = Vec::new();
+    for _ in 0..rng.range(1, 2) {
+        let start = rp(rng);
+        let mut cur = start;
+        let mut segs = Vec::new();
+        for _ in 0..rng.range(1, 5) {
+            let to = rp(rng);
+            let g = match rng.below(10) {
+                0 => Seg::Line(to),
+                // control point far beyond the end point / behind the start: sharp turn
+                1 => Seg::Quad(cur + (to - cur) * rng.uniform(1.5, 8.0) as f32 + vector(rng.uniform(-0.05, 0.05) as f32, rng.uniform(-0.05, 0.05) as f32) * scale, to),
+                2 => Seg::Quad(cur - (to - cur) * rng.uniform(0.5, 8.0) as f32 + vector(rng.uniform(-0.05, 0.05) as f32, rng.uniform(-0.05, 0.05) as f32) * scale, to),
+                // nearly closed quadratic
+                3 => Seg::Quad(rp(rng), cur + vector(rng.uniform(-0.05, 0.05) as f32, rng.uniform(-0.05, 0.05) as f32) * scale),
+                4 | 5 => Seg::Quad(rp(rng), to),
+                // loop / cusp-like cubic
+                6 => Seg::Cubic(to + vector(rng.uniform(-0.3, 0.3) as f32, rng.uniform(-0.3, 0.3) as f32) * scale, cur + vector(rng.uniform(-0.3, 0.3) as f32, rng.uniform(-0.3, 0.3) as f32) * scale, to),
+                _ => Seg::Cubic(rp(rng), rp(rng), to),
+            };
+            cur = g.to();
+            segs.push(g);
+        }
+        let close = rng.chance(1, 3);
+        let n = segs.len() + 1;
+        let strong = rng.chance(1, 2);
+        let w = (0..n).map(|_| if strong { 10f64.powf(rng.uniform(-1.0, 0.7)) as f32 } else { rng.uniform(0.5, 1.5) as f32 }).collect();
+        subs.push(Sub { start, segs, close, w });
+    }
+    StrokeInput { subs, kind: "curvy".to_string(), polyline: false, simple: false }
+}
+
+// the general form: all five entry points, fixed / variable width, curves, custom attributes.
+// `fulle tol width ml join cap1 cap2 variable fw_ids nattr nev (B id x y a* | L id x y a* |
+//  Q cx cy id x y a* | C c1x c1y c2x c2y id x y a* | E close)*`
+fn fulle_case(ctx: &mut Ctx) {
+    ctx.case("fulle:32", |rng| {
+        let width = match rng.below(8) {
+            0 => 10f64.powf(rng.uniform(-2.0, -0.5)),
+            1 => 10f64.powf(rng.uniform(1.3, 2.5)),
+            _ => rng.uniform(0.2, 12.0),
+        } as f32;
+        let tol = match rng.below(6) {
+            0 => 10f64.powf(rng.uniform(-3.0, -1.5)),
+            1 => rng.uniform(0.5, 3.0),
+            _ => rng.uniform(0.02, 0.4),
+        } as f32;
+        let limit = *rng.pick(&[1.0f32, 1.2, 2.0, 4.0, 4.0, 10.0, 50.0]);
+        let join = gen_join_kind(rng);
+        let (sc, ec) = (gen_cap(rng), gen_cap(rng));
+        let variable = rng.chance(1, 2);
+        let entry = if variable { *rng.pick(&[0usize, 2, 4]) } else { rng.below(5) as usize };
+        let n_attr = if variable || entry == 4 { rng.range(1, 3) as usize } else if entry == 0 || entry == 2 { rng.below(3) as usize } else { 0 };
+        let mut options = StrokeOptions::tolerance(tol).with_line_width(width).with_line_join(join).with_start_cap(sc).with_end_cap(ec).with_miter_limit(limit);
+        if variable {
+            options = options.with_variable_line_width(0);
+        }
+        let thr = (tol * tol * 0.5).min(width * width * 0.05).max(1e-8f32);
+        let inp = if rng.chance(1, 3) {
+            gen_stroke_input(rng, width * if variable { 2.5 } else { 1.0 }, thr)
+        } else if rng.chance(1, 2) {
+            gen_curvy_input(rng, width)
+        } else {
+            let lattice = rng.chance(1, 3);
+            let subs = gen_polyline_subs(rng, width, thr, 1.0, lattice);
+            StrokeInput {
+                subs: subs
+                    .into_iter()
+                    .map(|(pts, close)| Sub {
+                        start: pts[0],
+                        segs: pts[1..].iter().map(|p| Seg::Line(*p)).collect(),
+                        close,
+                        w: pts.iter().map(|_| if rng.chance(1, 6) { 1.0 } else { rng.uniform(0.3, 2.5) as f32 }).collect(),
+                    })
+                    .collect(),
+                kind: "folds".to_string(),
+                polyline: true,
+                simple: false,
+            }
+        };
+        let extra = [rng.uniform(-5.0, 5.0) as f32, rng.uniform(-5.0, 5.0) as f32];
+        // the endpoint ids the entry point hands to the stroker
+        let path = build_path(&inp, n_attr, &extra);
+        let by_path_ids = entry == 2 || (entry == 0 && n_attr > 0);
+        let fw_ids = entry == 1 || (entry == 0 && n_attr == 0);
+        let mut ids: Vec<u32> = Vec::new();
+        if by_path_ids {
+            for e in path.id_iter() {
+                match e {
+                    Event::Begin { at } => ids.push(at.0),
+                    Event::Line { to, .. } | Event::Quadratic { to, .. } | Event::Cubic { to, .. } => ids.push(to.0),
+                    Event::End { .. } => {}
+                }
+            }
+        } else {
+            let n: usize = inp.subs.iter().map(|s| 1 + s.segs.len()).sum();
+            ids = (0..n as u32).collect();
+        }
+        let n_ev: usize = inp.subs.iter().map(|s| 2 + s.segs.len()).sum();
+        let mut args = Out::new();
+        args.f(tol).f(width).f(limit).t(join_name(join)).t(cap_name(sc)).t(cap_name(ec)).b(variable).b(fw_ids).u(n_attr as u64).u(n_ev as u64);
+        let mut k_id = 0;
+        for s in &inp.subs {
+            let at = |k: usize| -> Vec<f32> {
+                let mut a = vec![s.w[k]];
+                a.extend_from_slice(&extra);
+                a.truncate(n_attr);
+                a
+            };
+            args.t("B").u(ids[k_id] as u64).p(s.start);
+            for a in at(0) {
+                args.f(a);
+            }
+            k_id += 1;
+            for (k, g) in s.segs.iter().enumerate() {
+                match g {
+                    Seg::Line(p) => args.t("L").u(ids[k_id] as u64).p(*p),
+                    Seg::Quad(c, p) => args.t("Q").p(*c).u(ids[k_id] as u64).p(*p),
+                    Seg::Cubic(c1, c2, p) => args.t("C").p(*c1).p(*c2).u(ids[k_id] as u64).p(*p),
+                };
+                for a in at(k + 1) {
+                    args.f(a);
+                }
+                k_id += 1;
+            }
+            args.t("E").b(s.close);
+        }
+        let tag = format!(
+            "fulle {} {} {}/{} {} attrs={} {}",
+            ENTRY[entry],
+            join_name(join),
+            cap_name(sc),
+            cap_name(ec),
+            if variable { "variable" } else { "fixed" },
+            n_attr,
+            inp.kind,
+        );
+        (args, tag, move || {
+            let mut rec = hk::Rec::default();
+            let mut tess = StrokeTessellator::new();
+            let res = match entry {
+                0 => tess.tessellate_path(&path, &options, &mut rec),
+                1 => tess.tessellate(path.iter(), &options, &mut rec),
+                2 => tess.tessellate_with_ids(path.id_iter(), &path, Some(&path), &options, &mut rec),
+                3 => {
+                    let mut b = tess.builder(&options, &mut rec);
+                    for s in &inp.subs {
+                        b.begin(s.start);
+                        for g in &s.segs {
+                            match g {
+                                Seg::Line(p) => b.line_to(*p),
+                                Seg::Quad(c, p) => b.quadratic_bezier_to(*c, *p),
+                                Seg::Cubic(c1, c2, p) => b.cubic_bezier_to(*c1, *c2, *p),
+                            };
+                        }
+                        b.end(s.close);
+                    }
+                    lyon_path::traits::Build::build(b)
+                }
+                _ => {
+                    let mut b = tess.builder_with_attributes(n_attr, &options, &mut rec);
+                    drive_builder(&mut b, &inp, n_attr, &extra);
+                    lyon_path::traits::Build::build(b)
+                }
+            };
+            let mut o = Out::new();
+            let mut orc = Oracle::new();
+            orc.check(res.is_ok(), "fulle/ok", "generic", || format!("{:?}", res));
+            // attributes are visible to the vertex constructor when the entry point has a store
+            put_full(&mut o, &rec, true);
+            CaseOut { imp: o, orcl: orc.verdict }
+        })
+    });
+}
+
 fn main() {
     let mut ctx = Ctx::from_args("C05");
     // PointBuffer: every operation sequence up to length L over {push, replace_last, clear}
@@ -1482,6 +1819,12 @@ fn main() {
     }
     for _ in 0..ctx.n(3000, 100000) {
         poly_case(&mut ctx);
+    }
+    for _ in 0..ctx.n(4000, 150000) {
+        full_case(&mut ctx);
+    }
+    for _ in 0..ctx.n(5000, 200000) {
+        fulle_case(&mut ctx);
     }
     ctx.finish();
 }
